@@ -1,15 +1,16 @@
 import AsynqModel.Lib.Threads
-/-! helper lemmas for C16: locality of `stepOf`, induction over schedules, slices of a thread-keyed table -/
+/-! helper lemmas for C16:
+    * generic: if the global step of a thread SIMULATES a local step through an abstraction (`hc`) and leaves the
+      abstraction of every other thread alone (`hf`), then every schedule / every family of adaptive computations gives
+      each thread the records of running alone.  `hc` and `hf` are hypotheses here - for `gStep` they are the theorems
+      `gStep_commutes` / `gStep_frame` below, and they are FALSE for the broken keyings (Theorems/C16.lean);
+    * association lists, slices of the thread-keyed dict, the carriers map;
+    * `gStep` versus `localStep`. -/
 namespace AsynqModel.Threads
 
-section generic
-variable {σ ω ο : Type}
-
-theorem update_same (g : ThreadId → σ) (t : ThreadId) (v : σ) : update g t v t = v := by
-  simp [update]
-
-theorem update_other (g : ThreadId → σ) (t u : ThreadId) (v : σ) (h : u ≠ t) : update g t v u = g u := by
-  simp [update, h]
+/-! ## lists -/
+section lists
+variable {ω ρ : Type}
 
 theorem opsOf_cons_same (t : ThreadId) (op : ω) (sch : List (ThreadId × ω)) :
     opsOf t ((t, op) :: sch) = op :: opsOf t sch := by
@@ -19,37 +20,142 @@ theorem opsOf_cons_other (t u : ThreadId) (op : ω) (sch : List (ThreadId × ω)
     opsOf t ((u, op) :: sch) = opsOf t sch := by
   simp [opsOf, h]
 
-theorem proj_cons_same {ρ : Type} (t : ThreadId) (r : ρ) (l : List (ThreadId × ρ)) :
+theorem proj_cons_same (t : ThreadId) (r : ρ) (l : List (ThreadId × ρ)) :
     proj t ((t, r) :: l) = r :: proj t l := by
   simp [proj]
 
-theorem proj_cons_other {ρ : Type} (t u : ThreadId) (r : ρ) (l : List (ThreadId × ρ)) (h : u ≠ t) :
+theorem proj_cons_other (t u : ThreadId) (r : ρ) (l : List (ThreadId × ρ)) (h : u ≠ t) :
     proj t ((u, r) :: l) = proj t l := by
   simp [proj, h]
 
-/-- the induction over the schedule: final slot and projected records of thread `t` are those of running alone -/
-theorem inter_eq_alone (step : σ → ω → σ × ο) (sch : List (ThreadId × ω)) (g : ThreadId → σ) (t : ThreadId) :
-    (runInterleaved step g sch).1 t = (runAlone step (g t) (opsOf t sch)).1 ∧
-    proj t (runInterleaved step g sch).2 = (runAlone step (g t) (opsOf t sch)).2 := by
+theorem proj_append (t : ThreadId) (a b : List (ThreadId × ρ)) : proj t (a ++ b) = proj t a ++ proj t b := by
+  simp [proj, List.filterMap_append]
+
+theorem proj_snoc_same (t : ThreadId) (r : ρ) (l : List (ThreadId × ρ)) :
+    proj t (l ++ [(t, r)]) = proj t l ++ [r] := by
+  rw [proj_append]; simp [proj]
+
+theorem proj_snoc_other (t u : ThreadId) (r : ρ) (l : List (ThreadId × ρ)) (h : u ≠ t) :
+    proj t (l ++ [(u, r)]) = proj t l := by
+  rw [proj_append]; simp [proj, h]
+
+/-- the schedule "`t` alone" contains exactly `t`'s operations -/
+theorem opsOf_only (t : ThreadId) (sch : List (ThreadId × ω)) : opsOf t (only t sch) = opsOf t sch := by
+  unfold only
+  induction opsOf t sch with
+  | nil => rfl
+  | cons op ops ih => rw [List.map_cons, opsOf_cons_same, ih]
+
+theorem opsOf_map_same (t : ThreadId) (ops : List ω) : opsOf t (ops.map fun op => (t, op)) = ops := by
+  induction ops with
+  | nil => rfl
+  | cons op ops ih => rw [List.map_cons, opsOf_cons_same, ih]
+
+end lists
+
+/-! ## generic simulation argument -/
+section generic
+variable {Γ Λ ω ο : Type} (gstep : ThreadId → ω → Γ → Γ × ο) (lstep : Λ → ω → Λ × ο) (ab : ThreadId → Γ → Λ)
+  (ok : ω → Bool)
+
+/-- all of `t`'s operations are `ok`: final view and projected records of thread `t` are those of running alone -/
+theorem sim_run
+    (hc : ∀ t op g, ok op = true → lstep (ab t g) op = (ab t (gstep t op g).1, (gstep t op g).2))
+    (hf : ∀ t u op g, u ≠ t → ab u (gstep t op g).1 = ab u g)
+    (sch : List (ThreadId × ω)) (g : Γ) (t : ThreadId) (hok : ∀ op ∈ opsOf t sch, ok op = true) :
+    ab t (runGlobal gstep g sch).1 = (runAlone lstep (ab t g) (opsOf t sch)).1 ∧
+    proj t (runGlobal gstep g sch).2 = (runAlone lstep (ab t g) (opsOf t sch)).2 := by
   induction sch generalizing g with
-  | nil => simp [runInterleaved, runAlone, opsOf, proj]
+  | nil => simp [runGlobal, runAlone, opsOf, proj]
   | cons p sch ih =>
     obtain ⟨u, op⟩ := p
     by_cases h : u = t
     · subst h
-      have := ih (update g u (step (g u) op).1)
-      simp only [runInterleaved, stepOf, opsOf_cons_same, runAlone, proj_cons_same, update_same] at this ⊢
+      rw [opsOf_cons_same] at hok
+      have hop : ok op = true := hok op (List.mem_cons_self ..)
+      have := ih (gstep u op g).1 (fun o ho => hok o (List.mem_cons_of_mem _ ho))
+      simp only [runGlobal, opsOf_cons_same, runAlone, proj_cons_same, hc u op g hop]
       exact ⟨this.1, by rw [this.2]⟩
-    · have := ih (update g u (step (g u) op).1)
-      simp only [runInterleaved, stepOf, opsOf_cons_other _ _ _ _ h, proj_cons_other _ _ _ _ h,
-        update_other _ _ _ _ (Ne.symm h)] at this ⊢
+    · rw [opsOf_cons_other _ _ _ _ h] at hok
+      have := ih (gstep u op g).1 hok
+      simp only [runGlobal, opsOf_cons_other _ _ _ _ h, proj_cons_other _ _ _ _ h]
+      rw [hf u t op g (Ne.symm h)] at this
+      exact this
+
+/-- without any assumption on `t`'s operations: the records agree up to `t`'s first operation that is not `ok` -/
+theorem sim_run_prefix
+    (hc : ∀ t op g, ok op = true → lstep (ab t g) op = (ab t (gstep t op g).1, (gstep t op g).2))
+    (hf : ∀ t u op g, u ≠ t → ab u (gstep t op g).1 = ab u g)
+    (sch : List (ThreadId × ω)) (g : Γ) (t : ThreadId) :
+    (proj t (runGlobal gstep g sch).2).takeWhile (fun r => ok r.1) =
+    ((runAlone lstep (ab t g) (opsOf t sch)).2).takeWhile (fun r => ok r.1) := by
+  induction sch generalizing g with
+  | nil => simp [runGlobal, runAlone, opsOf, proj]
+  | cons p sch ih =>
+    obtain ⟨u, op⟩ := p
+    by_cases h : u = t
+    · subst h
+      simp only [runGlobal, opsOf_cons_same, runAlone, proj_cons_same]
+      by_cases hop : ok op = true
+      · rw [hc u op g hop]
+        simp only [List.takeWhile_cons, hop, if_true]
+        rw [ih (gstep u op g).1]
+      · simp [List.takeWhile_cons, hop]
+    · have := ih (gstep u op g).1
+      simp only [runGlobal, opsOf_cons_other _ _ _ _ h, proj_cons_other _ _ _ _ h]
+      rw [hf u t op g (Ne.symm h)] at this
       exact this
 
 end generic
 
+/-! ## association lists -/
+section alist
+variable {α β : Type} [DecidableEq α]
+
+theorem alookup_aerase_same (k : α) (l : List (α × β)) : alookup k (aerase k l) = none := by
+  induction l with
+  | nil => rfl
+  | cons e r ih =>
+    obtain ⟨k', v⟩ := e
+    by_cases h : k' = k <;> simp [aerase, alookup, h, ih]
+
+theorem alookup_aerase_other (k k' : α) (l : List (α × β)) (h : k' ≠ k) :
+    alookup k' (aerase k l) = alookup k' l := by
+  induction l with
+  | nil => rfl
+  | cons e r ih =>
+    obtain ⟨k'', v⟩ := e
+    by_cases h1 : k'' = k
+    · subst h1
+      have : ¬ (k'' = k') := fun h2 => h h2.symm
+      simp [aerase, alookup, this, ih]
+    · by_cases h2 : k'' = k'
+      · subst h2; simp [aerase, alookup, h1]
+      · simp [aerase, alookup, h1, h2, ih]
+
+theorem alookup_ainsert_same (k : α) (v : β) (l : List (α × β)) : alookup k (ainsert k v l) = some v := by
+  simp [ainsert, alookup]
+
+theorem alookup_ainsert_other (k k' : α) (v : β) (l : List (α × β)) (h : k' ≠ k) :
+    alookup k' (ainsert k v l) = alookup k' l := by
+  have : ¬ (k = k') := fun h2 => h h2.symm
+  simp [ainsert, alookup, this, alookup_aerase_other k k' l h]
+
+end alist
+
+/-! ## the carriers map -/
+
+theorem getL_set_same (g : GState) (s : Nat) (v : TL) (tb : SharedTbl) (sh : Shared) :
+    getL { locals := ainsert s v g.locals, tasks := tb, sh := sh } s = v := by
+  simp [getL, alookup_ainsert_same]
+
+theorem getL_set_other (g : GState) (s s' : Nat) (v : TL) (tb : SharedTbl) (sh : Shared) (h : s' ≠ s) :
+    getL { locals := ainsert s v g.locals, tasks := tb, sh := sh } s' = getL g s' := by
+  simp [getL, alookup_ainsert_other s s' v g.locals h]
+
 /-! ## slices of the thread-keyed dedup table -/
 
-theorem slice_lookup (t : ThreadId) (f k : Nat) (tbl : SharedTbl) :
+theorem slice_lookup (t : Nat) (f k : Nat) (tbl : SharedTbl) :
     alookup (k, t, f) tbl = alookup (f, k) (slice t tbl) := by
   induction tbl with
   | nil => rfl
@@ -62,7 +168,7 @@ theorem slice_lookup (t : ThreadId) (f k : Nat) (tbl : SharedTbl) :
         intro h; injection h with _ h2; injection h2 with h3 _; exact hu h3
       simp [alookup, slice, hu, this, ih]
 
-theorem slice_erase_same (t : ThreadId) (f k : Nat) (tbl : SharedTbl) :
+theorem slice_erase_same (t : Nat) (f k : Nat) (tbl : SharedTbl) :
     slice t (aerase (k, t, f) tbl) = aerase (f, k) (slice t tbl) := by
   induction tbl with
   | nil => rfl
@@ -75,7 +181,7 @@ theorem slice_erase_same (t : ThreadId) (f k : Nat) (tbl : SharedTbl) :
         intro h; injection h with _ h2; injection h2 with h3 _; exact hu h3
       simp [aerase, slice, hu, this, ih]
 
-theorem slice_erase_other (t u : ThreadId) (f k : Nat) (tbl : SharedTbl) (h : u ≠ t) :
+theorem slice_erase_other (t u : Nat) (f k : Nat) (tbl : SharedTbl) (h : u ≠ t) :
     slice u (aerase (k, t, f) tbl) = slice u tbl := by
   induction tbl with
   | nil => rfl
@@ -89,5 +195,146 @@ theorem slice_erase_other (t u : ThreadId) (f k : Nat) (tbl : SharedTbl) (h : u 
     · by_cases he : (k', w, f') = (k, t, f)
       · simp only [aerase, he, if_true, slice, hw, if_false, ih]
       · simp only [aerase, he, if_false, slice, hw, ih]
+
+theorem slice_insert_same (t : Nat) (f k v : Nat) (tbl : SharedTbl) :
+    slice t (ainsert (k, t, f) v tbl) = ainsert (f, k) v (slice t tbl) := by
+  simp [ainsert, slice, slice_erase_same]
+
+theorem slice_insert_other (t u : Nat) (f k v : Nat) (tbl : SharedTbl) (h : u ≠ t) :
+    slice u (ainsert (k, t, f) v tbl) = slice u tbl := by
+  have : ¬ (t = u) := fun h' => h h'.symm
+  simp [ainsert, slice, this, slice_erase_other t u f k tbl h]
+
+/-- a table action applied to the one dict with thread component `tk` is the same action on `tk`'s slice -/
+theorem slice_applyG_same (tk : Nat) (act : TblAct) (tbl : SharedTbl) :
+    slice tk (applyG tk act tbl) = applyL act (slice tk tbl) := by
+  cases act with
+  | none => rfl
+  | insert fk v => obtain ⟨f, k⟩ := fk; exact slice_insert_same tk f k v tbl
+  | erase fk => obtain ⟨f, k⟩ := fk; exact slice_erase_same tk f k tbl
+
+/-- ... and leaves every other slice as it was -/
+theorem slice_applyG_other (tk tk' : Nat) (act : TblAct) (tbl : SharedTbl) (h : tk' ≠ tk) :
+    slice tk' (applyG tk act tbl) = slice tk' tbl := by
+  cases act with
+  | none => rfl
+  | insert fk v => obtain ⟨f, k⟩ := fk; exact slice_insert_other tk tk' f k v tbl h
+  | erase fk => obtain ⟨f, k⟩ := fk; exact slice_erase_other tk tk' f k tbl h
+
+/-! ## `coreStep` -/
+
+theorem sharedStep_none (perf : Bool) (sh : Shared) (l : TL) (op : Op) (h : op.isShared = false) :
+    sharedStep perf sh l op = none := by
+  cases op <;> first | rfl | (simp [Op.isShared] at h)
+
+/-- an operation that is not on a shared-by-design object neither reads nor writes `sh` -/
+theorem coreStep_priv (perf : Bool) (look : Nat × Nat → Option Nat) (sh : Shared) (l : TL) (op : Op)
+    (h : op.isShared = false) :
+    coreStep perf look sh l op =
+      { tl := (privStep perf look l op).1, act := (privStep perf look l op).2.1, sh := sh,
+        obs := (privStep perf look l op).2.2 } := by
+  simp [coreStep, sharedStep_none perf sh l op h]
+
+/-! ## `gStep` simulates `localStep` on the view of the acting thread, and frames the view of the others -/
+
+/-- **simulation**: for an operation that touches no shared-by-design object, what thread `t` observes and what
+    becomes of `t`'s view is `localStep` on `t`'s view - whatever the rest of the state is.  (Any keying.) -/
+theorem gStep_commutes (kg : Keying) (perf : Bool) (t : ThreadId) (op : Op) (g : GState) (h : op.isShared = false) :
+    localStep perf (abs kg t g) op = (abs kg t (gStep kg perf t op g).1, (gStep kg perf t op g).2) := by
+  have hl : (fun fk : Nat × Nat => alookup fk (slice (kg.key t) g.tasks)) =
+      (fun fk : Nat × Nat => alookup (fk.2, kg.key t, fk.1) g.tasks) := by
+    funext fk; obtain ⟨f, k⟩ := fk; exact (slice_lookup (kg.key t) f k g.tasks).symm
+  simp only [localStep, gStep, abs, hl, coreStep_priv _ _ _ _ _ h, getL_set_same, slice_applyG_same]
+
+/-- **frame**: if the keying separates the threads, an operation of thread `t` (ANY operation, also one on a shared
+    object) leaves the view of every other thread exactly as it was -/
+theorem gStep_frame (kg : Keying) (hs : kg.Separates) (perf : Bool) (t u : ThreadId) (op : Op) (g : GState)
+    (h : u ≠ t) : abs kg u (gStep kg perf t op g).1 = abs kg u g := by
+  have h1 : kg.slot u ≠ kg.slot t := fun e => h (hs.1 u t e)
+  have h2 : kg.key u ≠ kg.key t := fun e => h (hs.2 u t e)
+  simp only [gStep, abs, getL_set_other _ _ _ _ _ _ h1, slice_applyG_other _ _ _ _ h2]
+
+/-! ## what the model never records -/
+
+theorem privStep_obs_ne_foreign (perf : Bool) (look : Nat × Nat → Option Nat) (l : TL) (op : Op) :
+    (privStep perf look l op).2.2 ≠ Obs.foreign := by
+  cases op <;> simp only [privStep] <;> (repeat' split) <;> simp
+
+theorem sharedStep_obs_ne_foreign (perf : Bool) (sh : Shared) (l : TL) (op : Op) (r : TL × Shared × Obs)
+    (h : sharedStep perf sh l op = some r) : r.2.2 ≠ Obs.foreign := by
+  cases op <;> simp only [sharedStep] at h <;> (repeat' split at h) <;>
+    first | (cases h; simp) | (simp at h)
+
+theorem coreStep_obs_ne_foreign (perf : Bool) (look : Nat × Nat → Option Nat) (sh : Shared) (l : TL) (op : Op) :
+    (coreStep perf look sh l op).obs ≠ Obs.foreign := by
+  unfold coreStep
+  split
+  · next l' sh' o h => exact sharedStep_obs_ne_foreign perf sh l op (l', sh', o) h
+  · exact privStep_obs_ne_foreign perf look l op
+
+theorem gStep_obs_ne_foreign (kg : Keying) (perf : Bool) (t : ThreadId) (op : Op) (g : GState) :
+    (gStep kg perf t op g).2 ≠ Obs.foreign := by
+  exact coreStep_obs_ne_foreign perf _ g.sh _ op
+
+section runs
+variable {Γ ω ο : Type} (gstep : ThreadId → ω → Γ → Γ × ο)
+
+/-- the records of a run carry the threads of the schedule, in order -/
+theorem runGlobal_threads (g : Γ) (sch : List (ThreadId × ω)) :
+    (runGlobal gstep g sch).2.map (·.1) = sch.map (·.1) := by
+  induction sch generalizing g with
+  | nil => rfl
+  | cons p sch ih => obtain ⟨u, op⟩ := p; simp [runGlobal, ih]
+
+/-- every observation of a run satisfies what every single step's observation satisfies -/
+theorem runGlobal_obs (P : ο → Prop) (hP : ∀ t op g, P (gstep t op g).2) (g : Γ) (sch : List (ThreadId × ω)) :
+    ∀ r ∈ (runGlobal gstep g sch).2, P r.2.2 := by
+  induction sch generalizing g with
+  | nil => intro r hr; simp [runGlobal] at hr
+  | cons p sch ih =>
+    obtain ⟨u, op⟩ := p
+    intro r hr
+    simp only [runGlobal, List.mem_cons] at hr
+    rcases hr with rfl | hr
+    · exact hP u op g
+    · exact ih _ r hr
+
+end runs
+
+/-! ## adaptive computations -/
+
+/-- strategies: the records of thread `t` (and its view) after any list of turns are those of its computation running
+    alone for as many turns as `t` got -/
+theorem sim_strat (gstep : ThreadId → Op → GState → GState × Obs) (lstep : Local → Op → Local × Obs)
+    (ab : ThreadId → GState → Local) (ok : Op → Bool)
+    (hc : ∀ t op g, ok op = true → lstep (ab t g) op = (ab t (gstep t op g).1, (gstep t op g).2))
+    (hf : ∀ t u op g, u ≠ t → ab u (gstep t op g).1 = ab u g)
+    (ss : ThreadId → Strategy) (t : ThreadId) (hok : ∀ h op, ss t h = some op → ok op = true)
+    (turns : List ThreadId) (g : GState) (recs : List (ThreadId × Rec)) :
+    ab t (stratGlobal gstep ss turns g recs).1 = (stratAlone lstep (ss t) (turns.count t) (ab t g) (proj t recs)).1 ∧
+    proj t (stratGlobal gstep ss turns g recs).2 = (stratAlone lstep (ss t) (turns.count t) (ab t g) (proj t recs)).2 := by
+  induction turns generalizing g recs with
+  | nil => simp [stratGlobal, stratAlone]
+  | cons u turns ih =>
+    by_cases h : u = t
+    · subst h
+      rw [List.count_cons_self]
+      cases hs : ss u (proj u recs) with
+      | none => simp only [stratGlobal, stratAlone, hs]; exact ih g recs
+      | some op =>
+        have := ih (gstep u op g).1 (recs ++ [(u, (op, (gstep u op g).2))])
+        simp only [stratGlobal, stratAlone, hs, hc u op g (hok _ _ hs)]
+        rw [proj_snoc_same] at this
+        exact this
+    · have hne : (u == t) = false := by simp [h]
+      rw [List.count_cons, hne]
+      simp only [Bool.false_eq_true, if_false, Nat.add_zero]
+      cases hs : ss u (proj u recs) with
+      | none => simp only [stratGlobal, hs]; exact ih g recs
+      | some op =>
+        have := ih (gstep u op g).1 (recs ++ [(u, (op, (gstep u op g).2))])
+        simp only [stratGlobal, hs]
+        rw [proj_snoc_other _ _ _ _ h, hf u t op g (Ne.symm h)] at this
+        exact this
 
 end AsynqModel.Threads
